@@ -59,6 +59,15 @@ EXTRA = [
     [("M", {}, ("seq", (("lit", "begin"), ("asg", "xs", "+=", ("ref", "E"), None, False), ("lit", "end")))),
      ("E", {}, ("alt", (("seq", (("lit", "if"), ("asg", "c", "=", ("ref", "ID"), None, False))), ("asg", "k", "=", ("lit", "Key"), None, False),
                         ("asg", "r", "=", ("re", "[xy]+"), None, False))))],
+    # alphabetic separators (string and regex), on an assignment and on a repetition
+    [("M", {}, ("seq", (("asg", "xs", "+=", ("ref", "INT"), ("lit", "and"), False), ("opt", ("lit", "end")))))],
+    [("M", {}, ("seq", (("plus", ("asg", "ns", "=", ("ref", "INT"), None, False), ("lit", "or"), False), ("star", ("lit", "x"), ("re", "ab|,"), False))))],
+    # suppressed references to match rules made of a single regex / keyword literal / string, and the same rule used unsuppressed
+    [("M", {}, ("seq", (("sup", ("ref", "K")), ("asg", "x", "=", ("ref", "INT"), None, False), ("opt", ("asg", "k", "=", ("ref", "K"), None, False))))),
+     ("K", {}, ("re", "ab"))],
+    [("M", {}, ("seq", (("sup", ("ref", "K")), ("asg", "x", "=", ("ref", "INT"), None, False), ("opt", ("asg", "k", "=", ("ref", "K"), None, False))))),
+     ("K", {}, ("lit", "begin"))],
+    [("M", {}, ("alt", (("seq", (("sup", ("ref", "K")), ("lit", "a"))), ("seq", (("ref", "K"), ("lit", "b")))))), ("K", {}, ("seq", (("lit", "k"), ("re", "x+"))))],
 ]
 
 
